@@ -9,7 +9,9 @@ import (
 // Bounded stand-in for the structural contract of helper.Bst (pointer tree): every history of Insert/Remove/Min/Max
 // operations up to a stated length over a 4-value domain (type extremes and duplicates) is run on the real code; each
 // operation's result is compared with a multiset, and after the last operation of every history (all lengths up to the
-// bound) Contains of every value, Min and Max are compared. Labelled bounded; never counted as proved.
+// bound) Contains of every value, Min and Max are compared. A third family builds list-shaped trees (monotone and
+// zig-zag insert orders, branch length 16 x the bound) and observes after every operation. Labelled bounded; never
+// counted as proved.
 
 const bstBoundedSrc = `package helper
 
@@ -136,6 +138,81 @@ func zzBstRun[T Number](name string, dom []T, maxLen int, queries bool) zzBstRes
 	return res
 }
 
+// family 3: degenerate (list-shaped) trees. The tree is not balanced, so monotone and converging zig-zag insert orders
+// give a branch as long as the history; each of three insert orders is followed by each of three removal orders, and
+// after every single operation Contains of the value just touched, Min and Max are compared with the multiset.
+func zzBstChains[T Number](name string, n int) zzBstRes {
+	res := zzBstRes{Type: name}
+	asc := make([]T, n)
+	desc := make([]T, n)
+	zig := make([]T, n)
+	for i := 0; i < n; i++ {
+		asc[i] = T(i + 1)
+		desc[i] = T(n - i)
+		if i%2 == 0 {
+			zig[i] = T(i/2 + 1)
+		} else {
+			zig[i] = T(n - i/2)
+		}
+	}
+	orders := map[string][]T{"ascending": asc, "descending": desc, "zig-zag": zig}
+	for _, in := range []string{"ascending", "descending", "zig-zag"} {
+		for _, out := range []string{"ascending", "descending", "zig-zag"} {
+			res.Histories++
+			b := NewBst[T]()
+			count := map[T]int{}
+			observe := func(step string, v T) string {
+				res.Steps++
+				if b.Contains(v) != (count[v] > 0) {
+					return fmt.Sprintf("%s: Contains(%v) = %v, multiset count %d", step, v, b.Contains(v), count[v])
+				}
+				var mn, mx T
+				first := true
+				for x, c := range count {
+					if c == 0 {
+						continue
+					}
+					if first || x < mn {
+						mn = x
+					}
+					if first || x > mx {
+						mx = x
+					}
+					first = false
+				}
+				if b.Min() != mn || b.Max() != mx {
+					return fmt.Sprintf("%s: Min/Max = %v/%v, multiset %v/%v", step, b.Min(), b.Max(), mn, mx)
+				}
+				return ""
+			}
+			fail := ""
+			for i, v := range orders[in] {
+				b.Insert(v)
+				count[v]++
+				if fail = observe(fmt.Sprintf("%s inserts, after insert %d (%v)", in, i+1, v), v); fail != "" {
+					break
+				}
+			}
+			for i, v := range orders[out] {
+				if fail != "" {
+					break
+				}
+				if !b.Remove(v) {
+					fail = fmt.Sprintf("%s inserts then %s removals: removal %d Remove(%v) = false, value is in the multiset", in, out, i+1, v)
+					break
+				}
+				count[v]--
+				fail = observe(fmt.Sprintf("%s inserts then %s removals, after removal %d (%v)", in, out, i+1, v), v)
+			}
+			if fail != "" {
+				res.Failure = fail
+				return res
+			}
+		}
+	}
+	return res
+}
+
 func TestZZBstBounded(t *testing.T) {
 	maxLen := 5
 	fmt.Sscan(os.Getenv("VERIF_BST_LEN"), &maxLen)
@@ -149,6 +226,9 @@ func TestZZBstBounded(t *testing.T) {
 	// two-children removal among duplicates (everything observable is still compared at the end of every history)
 	out = append(out, zzBstRun[int8]("int8/3-values", []int8{2, 4, 7}, maxLen+2, false))
 	out = append(out, zzBstRun[float64]("float64/3-values", []float64{-1.5e300, 0, 1.5e300}, maxLen+2, false))
+	// family 3: list-shaped trees, branch length 16 x the history bound (quick 96, thorough 112)
+	out = append(out, zzBstChains[int64](fmt.Sprintf("int64/chains-of-%d", 16*maxLen), 16*maxLen))
+	out = append(out, zzBstChains[float64](fmt.Sprintf("float64/chains-of-%d", 16*maxLen), 16*maxLen))
 	b, _ := json.Marshal(out)
 	os.WriteFile(os.Getenv("VERIF_REPLAY_OUT"), b, 0o644)
 }
